@@ -73,7 +73,7 @@ var props = map[string]propCfg{
 		Reach:     []string{"body-parties-1", "body-parties-2", "auth-read-all", "auth-read-part", "body-defaults-applied", "default-query", "default-header", "default-cookie", "skip-identity", "idempotence-checked", "second-validation", "req-in-flight", "getbody-checked", "fault-run", "reqbody_eio", "reqbody_reset", "reqbody_unexpected_eof"}},
 	"C07": {Sim: "stream", Quick: tierCfg{Runs: 48000, Workers: 16, Budget: 180 * time.Second, Seeds: 1},
 		Thorough:  tierCfg{Runs: 800000, Workers: 16, Budget: 9 * time.Minute, Seeds: 5},
-		Rule:      "same runs as C13 biased to documents with security requirements; oracle R3: verdict and failing-part set of validation #1 equal those of a neutral run (same bytes as one in-memory chunk, non-reading callback with the same outcomes) whatever the chunk plan, GetBody/ContentLength variant and the callbacks' reading behaviour (none / part / all / close / body-dependent signature check); callbacks asked only about (scheme, scopes) pairs of the requirement list in effect and always finding the full body; a stream error observed by the library is never followed by acceptance where the operation declares a body and it is validated. Clause-scoped: the security/parameter truth table itself is not decided.",
+		Rule:      "same runs as C13 biased to documents with security requirements; oracle R3: verdict and failing-part set of validation #1 equal those of a neutral run (same bytes as one in-memory chunk, non-reading callback with the same outcomes) whatever the chunk plan, GetBody/ContentLength variant and the callbacks' reading behaviour (none / part / all / close / body-dependent signature check); callbacks asked only about (scheme, scopes) pairs of the requirement list in effect and always finding the full body; a stream error observed by the library is never followed by acceptance where the operation declares a body, it is validated and the request has no working GetBody to go back to; after such an error a callback never finds a proper prefix of the body ending in a clean EOF; in multi-error mode the failing parts are the union of what fails under an all-accepting callback and the security part. Clause-scoped: the security/parameter truth table itself is not decided.",
 		DesignRef: "§3 SIM-STREAM, §4 C07",
 		Reach:     []string{"security-model-true", "security-model-false", "auth-read-all", "auth-read-part", "body-parties-2", "fault-run", "reqbody_eio"}},
 	"C08": {Sim: "stream", Quick: tierCfg{Runs: 48000, Workers: 16, Budget: 180 * time.Second, Seeds: 1},
@@ -762,7 +762,12 @@ func runWorker(bin string, cfg propCfg, id, tier string, seed, w, n, stride uint
 		}
 		// resume after the fatal run
 		doneRuns := (c.Index-start)/stride + 1
-		sums = append(sums, summaryRec{Runs: int(doneRuns), Probes: map[string]int{}, Faults: map[string]int{}})
+		part := summaryRec{Runs: int(doneRuns), Probes: map[string]int{}, Faults: map[string]int{}, InconclWhy: map[string]int{}}
+		if vv.Sig == "" {
+			part.Inconcl = 1
+			part.InconclWhy["the run ended the process without a verdict (undecidable: see stderr of the worker)"] = 1
+		}
+		sums = append(sums, part)
 		if doneRuns >= remaining || crashes > 20 {
 			return
 		}
@@ -824,6 +829,11 @@ var classifyCrash = func(id, stderr string) (violation, bool) {
 	}
 	if id != "C15" {
 		return violation{}, false
+	}
+	if strings.Contains(stderr, "ZZSIM-HANG") {
+		// a caller blocked for real while holding the turn: that run cannot be decided (empty signature:
+		// counted as inconclusive, the batch goes on after it)
+		return violation{}, true
 	}
 	switch {
 	case strings.Contains(stderr, "ZZSIM-DEADLOCK"):
